@@ -103,7 +103,7 @@ func init() {
 			"a member owning at least one persistent and one non-persistent entity with an attachment departed while another member watched",
 			func(s *e1.Stats) bool { return marks(s, "departure:rich") })
 		partDepartureCauses(c, a)
-		partStepThrough(c, a, []string{"leave", "switch", "lastleave", "join"})
+		partStepThrough(c, a, []string{"leave", "switch", "lastleave", "join", "compadd-vs-leave", "action-vs-leave"})
 		return a.finish(c)
 	}
 }
